@@ -21,7 +21,11 @@ SetStep(s, c) == IF BadLen(c) THEN (IF c.ret = 0 THEN Yes(s) ELSE No(s))
                  ELSE IF c.ret = 1 THEN Yes(Given(c))
                  ELSE IF c.ret = 0 /\ (Len(Given(c)) >= BigAlloc \/ FaultOf(c) = 1) THEN Yes(s)
                  ELSE No(s)
-CallStep(s, c) == IF c.op \in {"new", "newlen"} THEN NewStep(s, c)
+\* set from a C string of 2^32 + k bytes (k small): whatever width the length travels in, the request does not fit
+\* and is refused; the contents stay
+SetBigStep(s, c) == IF c.ret = 0 THEN Yes(s) ELSE No(s)
+CallStep(s, c) == IF c.op = "setbig" THEN SetBigStep(s, c)
+                  ELSE IF c.op \in {"new", "newlen"} THEN NewStep(s, c)
                   ELSE IF c.op \in {"set", "setlen"} THEN SetStep(s, c)
                   ELSE No(s)
 Init == str = <<>>
